@@ -23,7 +23,7 @@ def run(ck):
     import pandas as pd
     rng = ck.rng
     thorough = ck.tier == "thorough"
-    n = 1500 if thorough else 220
+    n = ck.n(220, 1500)
     tmpdir = tempfile.mkdtemp(prefix="pgv-json-")
     lines, plan = [], []
     try:
@@ -103,7 +103,7 @@ def run(ck):
             lines.append("encode " + json.dumps(_iso_json(before)))
             plan.append(("encode", c, text, sig, None))
         # ------------------------------------------------ fitted models with a hidden temperature term (DR / DA) on isotherms stored in °C
-        for j in range(8 if thorough else 3):
+        for j in range(ck.n(3, 8)):
             name = rng.choice(["DR", "DA"])
             t_c = rng.choice([-195.795, -185.85, 25.0])
             rel = np.array(sorted(rng.uniform(1e-4, 0.95) for _ in range(14)))
